@@ -394,6 +394,13 @@ def scaleWrite (r : Reg1) (v : Option (Int × Int)) : Prog :=
   | some (s, sh) => .ok [.w1 r s sh]
   | none => .error .oracle
 
+/-- final part of `generate_ofm_scaling_for_pooling`: a scale that does not fit the 32-bit payload is rejected
+    (`VelaError`), never truncated -/
+def poolScaleWrite (v : Option (Int × Int)) : Prog :=
+  match v with
+  | some (s, sh) => if 0 ≤ s ∧ s < 4294967296 then .ok [.w1 .ofmScale s sh] else .error .vela
+  | none => .error .oracle
+
 /-- `generate_ifm2_broadcast` -/
 def genIfm2Broadcast (op : BlockOp) (ifm2 : FM) : Prog := do
   let b := if op.reversedOperands then bcastBit "ReverseOperandOrder" else 0
@@ -424,7 +431,7 @@ def blockProgram (arch : Arch) (op : BlockOp) : Prog := do
     let g := if op.rescaleKind = 2 then true else if op.rescaleKind = 3 then false else g
     let c ← genCommon arch op false g 0
     if g then do
-      let s ← scaleWrite .ofmScale op.oracle.ofmScale
+      let s ← poolScaleWrite op.oracle.ofmScale
       .ok (c ++ s)
     else .ok c
   | .elementwise =>
